@@ -61,10 +61,30 @@ def bucket(kwargs):
     return ",".join(out)
 
 
-def call_example(entry, kwargs, wrapper="cvxpy"):
+def reformulate(pep):
+    """An equivalent formulation of the model: every inequality declared on the problem  e <= 0  is moved to a 1x1 LMI
+    [[-e]] >= 0 attached to the first leaf function, and a useless one-block partition is declared."""
+    from PEPit.function import Function
+    leaves = [f for f in Function.list_of_functions if f.get_is_leaf() and type(f).__name__ != "Function"]
+    if not leaves:
+        return
+    keep = []
+    for c in pep.list_of_constraints:
+        if c.equality_or_inequality == "inequality":
+            leaves[0].add_psd_matrix([[-c.expression]])
+        else:
+            keep.append(c)
+    pep.list_of_constraints = keep
+    part = pep.declare_block_partition(d=1)
+    if leaves[0].list_of_points:
+        part.get_block(leaves[0].list_of_points[0][0], 0)
+
+
+def call_example(entry, kwargs, wrapper="cvxpy", reformulated=False):
     from pv import driver
     bd = driver.boundary()
     bd.default_solver = "CLARABEL"
+    bd.pre_solve = reformulate if reformulated else None
     mod = importlib.import_module(entry["module"])
     fn = getattr(mod, entry["func"])
     n0 = len(bd.records)
@@ -75,6 +95,7 @@ def call_example(entry, kwargs, wrapper="cvxpy"):
     with contextlib.redirect_stdout(io.StringIO()), warnings.catch_warnings():
         warnings.simplefilter("ignore")
         out = fn(**kwargs, **extra)
+    bd.pre_solve = None
     recs = bd.records[n0:]
     statuses = [str(x["status"]).lower() for r in recs for x in r["inner"]]
     return out, statuses, time.time() - t0
@@ -159,6 +180,22 @@ def run_shard(spec):
             sigs.add("%s|%s|%s" % (e["name"], bucket(kw), wrapper))
             if len(samples) < 3:
                 samples.append({"example": e["name"], "kwargs": kw, "wrapper": wrapper, "pepit": pepit, "theory": theory, "kind": e["kind"]})
+            # the value must not move under an equivalent formulation (inequalities as 1x1 LMIs on a function)
+            if ok and wrapper == "cvxpy" and random.Random(repr(sorted(kw.items()))).random() < 0.35 and e.get("cost") != "heavy":
+                try:
+                    (p2, t2), st2, _w = call_example(e, kw, wrapper, reformulated=True)
+                    if st2 and all(is_optimal_status(s_) for s_ in st2) and p2 is not None:
+                        counters["reformulations_judged"] = counters.get("reformulations_judged", 0) + 1
+                        if abs(p2 - pepit) > 1e-3 * abs(pepit) + 1e-6:
+                            V("equivalent_formulation_moves_value:inequalities_as_function_lmis:%s" % e["name"],
+                              "%s(%s): %.8g as shipped, %.8g when the problem-level inequalities are written as 1x1 LMIs on a function"
+                              % (e["func"], kw, pepit, p2), e, kw, wrapper)
+                    elif p2 is None and st2:
+                        V("equivalent_formulation_moves_value:inequalities_as_function_lmis:%s" % e["name"],
+                          "%s(%s): %.8g as shipped, no finite value when the problem-level inequalities are written as 1x1 LMIs on a function "
+                          "(statuses %s)" % (e["func"], kw, pepit, st2), e, kw, wrapper)
+                except Exception as ex:
+                    counters["reformulation_exceptions:" + type(ex).__name__] = counters.get("reformulation_exceptions:" + type(ex).__name__, 0) + 1
             if not ok:
                 V("example_disagrees_with_documented_rate:%s" % e["name"],
                   "%s(%s) [%s]: computed %.8g, documented %s value %.8g (relative gap %.2e)"
